@@ -21,8 +21,16 @@
  *     (register address, type, bit pattern): an uninterpreted function in the
  *     proofs, a seeded hash natively.
  *
+ * Two layers.  The MACROS (SPEC_...) are call-free expressions and are what
+ * the contracts use: dfcc instruments every function that a contract clause
+ * calls (each local assignment is checked against a write set), which made
+ * clause evaluation the dominant cost; boolean macros are also free of ?: so
+ * that they may appear in assigns-clause conditions.  The FUNCTIONS (spec_...)
+ * say the same thing case by case and are used by harness code and stubs;
+ * target `spec_layers` proves macro == function for all arguments.
+ *
  * Plain C, loop-free; compiled by goto-cc for the proofs and by gcc for the
- * native replay.
+ * native replay.  Host: little-endian, IEEE-754 (the pinned build).
  */
 #ifndef SPEC_REGISTERS_H
 #define SPEC_REGISTERS_H
@@ -34,20 +42,23 @@
 
 #define SPEC_REG_TYPE_OK(ty) ((int)(ty) >= (int)REG_TYPE_UINT16 && (int)(ty) <= (int)REG_TYPE_FLOAT64)
 #define SPEC_REGV_TYPE_OK(ct) ((int)(ct) >= (int)REGV_TYPE_TRIVIAL && (int)(ct) <= (int)REGV_TYPE_CALLBACK)
-#define SPEC_REG_WORDS(ty) \
-  (((ty) == REG_TYPE_UINT16 || (ty) == REG_TYPE_SINT16) ? 1u : \
-   ((ty) == REG_TYPE_UINT32 || (ty) == REG_TYPE_SINT32 || (ty) == REG_TYPE_FLOAT32) ? 2u : \
-   ((ty) == REG_TYPE_UINT64 || (ty) == REG_TYPE_SINT64 || (ty) == REG_TYPE_FLOAT64) ? 4u : 0u)
-/* the same without ?: (usable in assigns-clause conditions) */
 #define SPEC_REG_W1(ty) ((ty) == REG_TYPE_UINT16 || (ty) == REG_TYPE_SINT16)
 #define SPEC_REG_W2(ty) ((ty) == REG_TYPE_UINT32 || (ty) == REG_TYPE_SINT32 || (ty) == REG_TYPE_FLOAT32)
 #define SPEC_REG_W4(ty) ((ty) == REG_TYPE_UINT64 || (ty) == REG_TYPE_SINT64 || (ty) == REG_TYPE_FLOAT64)
+#define SPEC_REG_WORDS(ty) (SPEC_REG_W1(ty) ? 1u : SPEC_REG_W2(ty) ? 2u : SPEC_REG_W4(ty) ? 4u : 0u)
 #define SPEC_REG_IS_UNSIGNED(ty) \
   ((ty) == REG_TYPE_UINT16 || (ty) == REG_TYPE_UINT32 || (ty) == REG_TYPE_UINT64)
 #define SPEC_REG_IS_SIGNED(ty) \
   ((ty) == REG_TYPE_SINT16 || (ty) == REG_TYPE_SINT32 || (ty) == REG_TYPE_SINT64)
 
 /* ---- bit patterns ------------------------------------------------------ */
+
+/* macro: all members of RegisterValueU start at the same address, so on the
+ * little-endian host the 16/32/64-bit pattern of the value of type ty is the
+ * low 16/32/64 bits of the u64 member (written without ?:) */
+#define SPEC_BITS(ty, u) \
+  ((u).u64 & ((-(uint64_t)SPEC_REG_W1(ty) & 0xffffull) | (-(uint64_t)SPEC_REG_W2(ty) & 0xffffffffull) \
+              | (-(uint64_t)SPEC_REG_W4(ty))))
 
 static inline uint32_t spec_f32_bits(float f)
 {
@@ -77,7 +88,7 @@ static inline double spec_f64_of(uint64_t u)
   return c.f;
 }
 
-/* the 16/32/64-bit pattern of a value of type ty (zero-extended to 64 bit) */
+/* function: the 16/32/64-bit pattern of a value of type ty, case by case */
 static inline uint64_t spec_bits(RegisterType ty, RegisterValueU v)
 {
   switch (ty) {
@@ -141,30 +152,34 @@ static inline uint16_t spec_word(uint64_t bits, unsigned n, bool be, unsigned w)
    ((n) < 3u || (p)[2] == SPEC_WORD(bits, n, be, 2u)) && \
    ((n) < 4u || (p)[3] == SPEC_WORD(bits, n, be, 3u)))
 
-/* function form (arguments evaluated once) */
-static inline bool spec_words_are(const uint16_t *p, unsigned n, uint64_t bits, bool be)
-{
-  return SPEC_WORDS_ARE(p, n, bits, be);
-}
-
 /* contribution of storage word w to the pattern */
 #define SPEC_WORD_BITS(x, n, be, w) \
   ((((uint64_t)((x) & 0xffu)) << (8u * ((be) ? (2u * (n) - 1u - 2u * (w)) : (2u * (w))))) | \
    (((uint64_t)(((x) >> 8) & 0xffu)) << (8u * ((be) ? (2u * (n) - 2u - 2u * (w)) : (2u * (w) + 1u)))))
 /* the pattern whose image the n words at p are (n <= 4) */
+#define SPEC_DECODE(p, n, be) \
+  (((n) >= 1u ? SPEC_WORD_BITS((uint64_t)(p)[0], n, be, 0u) : (uint64_t)0u) | \
+   ((n) >= 2u ? SPEC_WORD_BITS((uint64_t)(p)[1], n, be, 1u) : (uint64_t)0u) | \
+   ((n) >= 3u ? SPEC_WORD_BITS((uint64_t)(p)[2], n, be, 2u) : (uint64_t)0u) | \
+   ((n) >= 4u ? SPEC_WORD_BITS((uint64_t)(p)[3], n, be, 3u) : (uint64_t)0u))
 static inline uint64_t spec_decode(const uint16_t *p, unsigned n, bool be)
 {
-  uint64_t bits = 0u;
-  if (n >= 1u) bits |= SPEC_WORD_BITS((uint64_t)p[0], n, be, 0u);
-  if (n >= 2u) bits |= SPEC_WORD_BITS((uint64_t)p[1], n, be, 1u);
-  if (n >= 3u) bits |= SPEC_WORD_BITS((uint64_t)p[2], n, be, 2u);
-  if (n >= 4u) bits |= SPEC_WORD_BITS((uint64_t)p[3], n, be, 3u);
-  return bits;
+  return SPEC_DECODE(p, n, be);
 }
 
 /* ---- floats -------------------------------------------------------------- */
 
 /* zero, or exponent field not in {0, all-ones}: on the bit pattern */
+#define SPEC_F32_OK(b) \
+  ((((b) & 0x7fffffffu) == 0u) || ((((b) >> 23) & 0xffu) != 0u && (((b) >> 23) & 0xffu) != 0xffu))
+#define SPEC_F64_OK(b) \
+  ((((b) & 0x7fffffffffffffffull) == 0u) || ((((b) >> 52) & 0x7ffu) != 0u && (((b) >> 52) & 0x7ffu) != 0x7ffu))
+/* for a value u (RegisterValueU) read as type ty */
+#define SPEC_FLOAT_OK(ty, u) \
+  (((ty) != REG_TYPE_FLOAT32 && (ty) != REG_TYPE_FLOAT64) \
+   || ((ty) == REG_TYPE_FLOAT32 && SPEC_F32_OK((u).u32)) \
+   || ((ty) == REG_TYPE_FLOAT64 && SPEC_F64_OK((u).u64)))
+
 static inline bool spec_float_ok(RegisterType ty, uint64_t bits)
 {
   if (ty == REG_TYPE_FLOAT32) {
@@ -181,6 +196,17 @@ static inline bool spec_float_ok(RegisterType ty, uint64_t bits)
 
 /* ---- constraints --------------------------------------------------------- */
 
+/* value >= / <= limit in the order of the type (inclusive); floats: IEEE
+ * order, false if either side is a NaN; false for anything that is not a
+ * value type */
+#define SPEC_CMP_OK(ty, v, lim, OP) \
+  (((ty) == REG_TYPE_UINT16 && (v).u16 OP (lim).u16) || ((ty) == REG_TYPE_UINT32 && (v).u32 OP (lim).u32) \
+   || ((ty) == REG_TYPE_UINT64 && (v).u64 OP (lim).u64) || ((ty) == REG_TYPE_SINT16 && (v).s16 OP (lim).s16) \
+   || ((ty) == REG_TYPE_SINT32 && (v).s32 OP (lim).s32) || ((ty) == REG_TYPE_SINT64 && (v).s64 OP (lim).s64) \
+   || ((ty) == REG_TYPE_FLOAT32 && (v).f32 OP (lim).f32) || ((ty) == REG_TYPE_FLOAT64 && (v).f64 OP (lim).f64))
+#define SPEC_MIN_OK(ty, v, lim) SPEC_CMP_OK(ty, v, lim, >=)
+#define SPEC_MAX_OK(ty, v, lim) SPEC_CMP_OK(ty, v, lim, <=)
+
 static inline int64_t spec_signed_of(RegisterType ty, uint64_t bits)
 {
   switch (ty) {
@@ -190,8 +216,8 @@ static inline int64_t spec_signed_of(RegisterType ty, uint64_t bits)
   }
 }
 
-/* value >= limit in the order of the type (inclusive); floats: IEEE order,
- * false if either side is a NaN */
+/* function form, on the patterns: unsigned as zero-extended, signed as
+ * sign-extended 64-bit integers, floats by IEEE comparison */
 static inline bool spec_min_ok(RegisterType ty, RegisterValueU v, RegisterValueU lim)
 {
   if (!SPEC_REG_TYPE_OK(ty))
@@ -237,7 +263,19 @@ static inline bool spec_cb_verdict_native(uint32_t address, int type, uint64_t b
   spec_cb_verdict_native((uint32_t)(address), (int)(type), (uint64_t)(bits))
 #endif
 
-/* v is valid for register e */
+/* value `vu` (RegisterValueU) of type `vty` is valid for register e (pointer);
+ * `during` = the table is being initialised */
+#define SPEC_VALID(e, vty, vu, during) \
+  ((vty) == (e)->type \
+   && ((e)->check.type == REGV_TYPE_TRIVIAL \
+       || ((e)->check.type == REGV_TYPE_FAIL && (during)) \
+       || ((e)->check.type == REGV_TYPE_MIN && SPEC_MIN_OK((e)->type, vu, (e)->check.arg.min)) \
+       || ((e)->check.type == REGV_TYPE_MAX && SPEC_MAX_OK((e)->type, vu, (e)->check.arg.max)) \
+       || ((e)->check.type == REGV_TYPE_RANGE && SPEC_MIN_OK((e)->type, vu, (e)->check.arg.range.min) \
+           && SPEC_MAX_OK((e)->type, vu, (e)->check.arg.range.max)) \
+       || ((e)->check.type == REGV_TYPE_CALLBACK \
+           && SPEC_CB_VERDICT((e)->address, (e)->type, SPEC_BITS((e)->type, vu)))))
+
 static inline bool spec_valid(const RegisterEntry *e, RegisterValue v, bool during_init)
 {
   if (v.type != e->type)
@@ -252,69 +290,6 @@ static inline bool spec_valid(const RegisterEntry *e, RegisterValue v, bool duri
   case REGV_TYPE_CALLBACK: return SPEC_CB_VERDICT(e->address, e->type, spec_bits(e->type, v.value));
   default:                 return false;
   }
-}
-
-/* the same for a value given by its bit pattern, of the register's own type */
-static inline bool spec_valid_bits(const RegisterEntry *e, uint64_t bits, bool during_init)
-{
-  RegisterValue v;
-  v.type = e->type;
-  v.value = spec_value_of(e->type, bits);
-  return spec_valid(e, v, during_init);
-}
-
-/* ---- typed set / get: outcome ------------------------------------------------ */
-
-/* Reasons for which the statement says a typed set is refused; several may
- * apply at once, the statement fixes no precedence among the last three.  An
- * uninitialised table and a handle that is not a register of the table are
- * decided before anything of an entry is looked at. */
-#define SPEC_R_UNINIT   1u
-#define SPEC_R_NOENTRY  2u
-#define SPEC_R_RANGE    4u    /* wrong type or constraint violated (checked variant only) */
-#define SPEC_R_READONLY 8u    /* the area has no write callback */
-#define SPEC_R_INVALID  16u   /* float NaN, infinite or subnormal */
-
-static inline unsigned spec_set_reasons(const RegisterTable *t, RegisterHandle idx, RegisterValue v, bool checked)
-{
-  if ((t->flags & REG_TF_INITIALISED) == 0)
-    return SPEC_R_UNINIT;
-  if (idx >= t->entries)
-    return SPEC_R_NOENTRY;
-  const RegisterEntry *e = t->entry + idx;
-  unsigned r = 0u;
-  if (checked && !spec_valid(e, v, (t->flags & REG_TF_DURING_INIT) != 0))
-    r |= SPEC_R_RANGE;
-  if (e->area->write == NULL)
-    r |= SPEC_R_READONLY;
-  if (!spec_float_ok(e->type, spec_bits(e->type, v.value)))
-    r |= SPEC_R_INVALID;
-  return r;
-}
-
-/* the reported code names one of the reasons that apply */
-static inline bool spec_code_names_reason(RegisterAccessCode code, unsigned reasons)
-{
-  return (code == REG_ACCESS_UNINITIALISED && (reasons & SPEC_R_UNINIT) != 0u)
-      || (code == REG_ACCESS_NOENTRY && (reasons & SPEC_R_NOENTRY) != 0u)
-      || (code == REG_ACCESS_RANGE && (reasons & SPEC_R_RANGE) != 0u)
-      || (code == REG_ACCESS_READONLY && (reasons & SPEC_R_READONLY) != 0u)
-      || (code == REG_ACCESS_INVALID && (reasons & SPEC_R_INVALID) != 0u);
-}
-
-/* the words of register idx hold exactly the image of `bits` */
-static inline bool spec_reg_holds(const RegisterTable *t, RegisterHandle idx, uint64_t bits)
-{
-  const RegisterEntry *e = t->entry + idx;
-  return spec_words_are(e->area->mem + e->offset, SPEC_REG_WORDS(e->type), bits,
-                        (t->flags & REG_TF_BIG_ENDIAN) != 0);
-}
-
-/* the pattern that the words of register idx are the image of */
-static inline uint64_t spec_reg_bits(const RegisterTable *t, RegisterHandle idx)
-{
-  const RegisterEntry *e = t->entry + idx;
-  return spec_decode(e->area->mem + e->offset, SPEC_REG_WORDS(e->type), (t->flags & REG_TF_BIG_ENDIAN) != 0);
 }
 
 #endif /* SPEC_REGISTERS_H */
